@@ -423,6 +423,42 @@ def rule4_affine(ctx, v):
                        (FREE_LIST_NUM, FREE_LIST_NUM), loc=c.loc,
                        detail='' if ok else 'index = %s ranges over [0,32] (32 - clz of a 32-bit truncation); sizes above '
                        '2^30 index past the table' % expr_str(fn, idx))
+    # the class a size is filed under is large enough for it: 1 << index(size) >= size, constant-folded on a grid of sizes that
+    # includes non-powers of two (a class index rounded down hands a 12 KiB request an 8 KiB block)
+    from ..ir import iter_refs
+    for fn, lst in ((a, ia), (b, ib)):
+        for c, idx_ in lst[:1]:
+            leaves, seen_, work = [], set(), [idx_]
+            while work:
+                r_ = work.pop()
+                i_ = fn.get(r_) if isinstance(r_, str) else None
+                if i_ is None:
+                    if isinstance(r_, str) and r_.startswith('a'):
+                        leaves.append(r_)
+                    continue
+                if i_.id in seen_:
+                    continue
+                seen_.add(i_.id)
+                if i_.op == 'phi' and len(i_.d['incoming']) > 1:
+                    leaves.append(i_.id)
+                    continue
+                work += list(iter_refs(i_.d))
+            leaves = sorted(set(leaves))
+            bad, n_ev = [], 0
+            if len(leaves) == 1:
+                for S in (8, 9, 16, 17, 100, 4095, 4096, 4097, 8192, 8193, 12288, 16384, 20480, 65536, 65537, 131072, 1 << 20, (1 << 20) + 4096):
+                    k = lib.eval_expr(fn, idx_, {leaves[0]: S})
+                    if k is None:
+                        continue
+                    n_ev += 1
+                    if not (0 <= k < 64 and (1 << k) >= S):
+                        bad.append((S, k))
+            if len(leaves) == 1 and n_ev >= 10:
+                ctx.ob('C12.4', '%s: the size class covers the size' % fn.name, not bad,
+                       '1 << index(size) >= size for every size', loc=c.loc,
+                       detail='%d sizes evaluated; (size, index) not covered: %s' % (n_ev, bad[:4]))
+            else:
+                ctx.note('C12.4: size-class index of %s is not a foldable function of one size value; capacity not decided' % fn.name)
     # every block that enters size class idx has the capacity of the class (1 << idx): flfree files a block under the class of
     # the size it is told, and the next user of that class may be given any size up to the class size
     if ia:
@@ -613,6 +649,8 @@ def run(ctx):
 SCHED = 'src/myth_sched_func.h'
 MISC = 'src/myth_misc_func.h'
 MUTANTS = [
+    {'name': 'size-class index rounded down (seed5 C12/m2)', 'expect': 'C12.4',
+     'edits': [(MISC, "#define MYTH_MALLOC_SIZE_TO_INDEX(s) (32-__builtin_clz((s)-1))", "#define MYTH_MALLOC_SIZE_TO_INDEX(s) (31-__builtin_clz((unsigned int)(s)))")]},
     {'name': 'th->stack recorded after the hint was carved off the stack top (seed4 C13/m2)', 'expect': 'C12.4',
      'edits': [(SCHED, "  new_thread->stack = stk;\n  new_thread->stack_size = stack_size;\n#else", "#else"),
                (SCHED, "  init_myth_thread_struct(env, new_thread);\n  if (attr && attr->detachstate) {", "  init_myth_thread_struct(env, new_thread);\n  new_thread->stack = stk;\n  new_thread->stack_size = stack_size;\n  if (attr && attr->detachstate) {")]},
